@@ -311,6 +311,22 @@ func exhaustiveC01(thorough bool, emit func(C01Case) bool) {
 			return
 		}
 	}
+	// multi-byte tokens at the start and inside of names and sequences, first and later records
+	for _, tok := range gen.HostileTokens {
+		for pos := 0; pos < 2; pos++ {
+			val := append(append(gen.B{}, tok...), 'x')
+			if pos == 1 {
+				val = append(append(gen.B{'x'}, tok...), 'y')
+			}
+			if bytes.ContainsAny(val, "\r\n") {
+				continue
+			}
+			recs := []FastaRec{{Name: val, Seq: gen.Lit(append(bytes.Clone(val), seqOfLen(90)...))}, {Name: gen.B("second"), Seq: gen.Lit(val)}, {Name: val}}
+			if !emit(C01Case{Recs: recs}) || !emit(C01Case{Recs: recs, Layout: &FastaLayout{Widths: []int{3}, Blanks: []int{0, 1}, CRLF: true}}) {
+				return
+			}
+		}
+	}
 	// All pairs of boundary lengths.
 	bl := []int{0, 1, 79, 80, 81, 159, 160, 161}
 	for _, a := range bl {
